@@ -997,8 +997,7 @@ def gen_session(rng, long=False, with_delete=False):
             ops.append({'op': 'estimate'})
             last = None
         elif r < 0.82:
-            # (a one-parameter model cannot be bootstrapped: results.py indexes the 0-dimensional np.cov -- not C15)
-            ops.append({'op': 'estimate_boot' if k > 1 else 'estimate'})
+            ops.append({'op': 'estimate_boot'})
             last = None
         elif r < 0.91:
             ops.append({'op': 'quick'})
@@ -1064,8 +1063,8 @@ def stream_iter(ctx):
                     '(also those issued by the optimiser); non-trivial = at least 2 counted evaluations and one '
                     'non-improving or non-finite one; distinct by (names, model, ops)')
     rng = ctx.sub_rng('iter')
-    sessions = load_corpus('iter') + [gen_session(rng) for _ in range(ctx.n(48, 600))] \
-        + [gen_session(rng, long=True) for _ in range(ctx.n(6, 80))]
+    sessions = load_corpus('iter') + [gen_session(rng) for _ in range(ctx.n(48, 1500))] \
+        + [gen_session(rng, long=True) for _ in range(ctx.n(6, 200))]
     nb = ctx.n(8, 16)
     B = max(1, (len(sessions) + nb - 1) // nb)
     batches = [sessions[i:i + B] for i in range(0, len(sessions), B)]
@@ -1305,7 +1304,7 @@ def stream_crash(ctx):
                     'restart succeeds, starts from the file (or the defaults), not below the original start; '
                     'non-trivial = crash strictly inside a save (after open, before replace); distinct by (scenario, j, k)')
     rng = ctx.sub_rng('crash')
-    scenarios = load_corpus('crash') + [gen_crash_scenario(rng, use_estimate=(i % 2 == 1)) for i in range(ctx.n(4, 40))]
+    scenarios = load_corpus('crash') + [gen_crash_scenario(rng, use_estimate=(i % 2 == 1)) for i in range(ctx.n(4, 80))]
     dry = ctx.impl('c15_iter.py', {'mode': 'iter', 'sessions': scenarios}, timeout=900)
     sessions = []
     meta = []
